@@ -261,13 +261,13 @@ func (c *Ctx) rulesC05(a *coreAnchors) {
 	// TargetStates result sorted: the value returned by the resolver's
 	// TargetStates was passed to SortStates
 	if ts := c.fn(pm + ":DefaultRelationsResolver.TargetStates"); ts != nil {
-		rets := returnsOf(ts)
+		rets := c.effectiveReturns(ts)
 		for i, r := range rets {
 			if len(r.Results) != 1 {
 				continue
 			}
 			sorted := false
-			for _, s := range c.sitesIn(ts, pm+":DefaultRelationsResolver.SortStates") {
+			for _, s := range c.sitesIn(r.Parent(), pm+":DefaultRelationsResolver.SortStates") {
 				if len(s.Common().Args) == 2 && sameSlice(s.Common().Args[1], retVals(r)[0]) && dominatesInstr(s, r) {
 					sorted = true
 				}
